@@ -20,7 +20,7 @@ NOT_DECIDED = ['zeroing does not fail for reachable targets (convergence of thet
 EXTRA_ASSUMPTIONS = ['the single row returned by _integrate(shot, R, R, NONE) is a function of the barrel elevation and R '
                      '(uninterpreted function zero_run_height); justified by the frame clause modifies=[] of _integrate and '
                      'the absence of random/time sources, not machine-checked']
-EXTRA = ['bounded_zero_level', 'bounded_zero_out_of_reach', 'bounded_zero_inclined']
+EXTRA = ['bounded_zero_level', 'bounded_zero_out_of_reach', 'bounded_zero_inclined', 'bounded_zero_history']
 
 
 def _miss(P, calc, shot, dist_yd):
@@ -65,6 +65,52 @@ def bounded_zero_level(tier, seed):
     return result('bounded:zero-level', [mk('level-sight-line-zero-hits-the-aim-point', bad is None,
                   'set_weapon_zero then fire: |target_drop| at the zero distance (level sight lines, sampled loads and winds)',
                   cases, t0, bad)], t0, props=('C02',))
+
+
+def bounded_zero_history(tier, seed):
+    """history on ONE long-used calculator: zero a shot, change one thing only (wind, humidity, temperature, or a fresh
+    Shot with equal parameters and another wind) and zero again - the second zero must hit as well"""
+    import random
+    import math
+    from pyvc.bounded import pkg, std_shot, mk
+    from pyvc.scan import result
+    P = pkg()
+    rng = random.Random(3500 + seed)
+    t0 = time.time()
+    bad = None
+    cases = 0
+    calc = P.Calculator()
+    for k in range(6 if tier == 'quick' else 30):
+        d = rng.choice([100, 200, 300, 500, 800])
+        state = rng.getstate()
+        shot = std_shot(P, rng, look_deg=0.0, winds=[P.Wind(P.Unit.MPH(0), P.Unit.Degree(0))])
+        try:
+            _miss(P, calc, shot, d)
+            kind = k % 4
+            if kind == 0:
+                shot.winds = [P.Wind(P.Unit.MPH(rng.uniform(10, 25)), P.Unit.Degree(rng.choice([0, 180])))]
+            elif kind == 1:
+                rng2 = random.Random()
+                rng2.setstate(state)
+                shot = std_shot(P, rng2, look_deg=0.0,
+                                winds=[P.Wind(P.Unit.MPH(rng.uniform(10, 25)), P.Unit.Degree(rng.choice([0, 180])))])
+            elif kind == 2:
+                shot.atmo.humidity = 90
+                shot.winds = [P.Wind(P.Unit.MPH(20), P.Unit.Degree(0), P.Unit.Yard(d / 2)), P.Wind(P.Unit.MPH(20), P.Unit.Degree(180))]
+            else:
+                shot.atmo = P.Atmo(altitude=P.Unit.Foot(6000), pressure=P.Unit.InHg(23.0), temperature=P.Unit.Fahrenheit(95))
+            m, row = _miss(P, calc, shot, d)
+        except Exception as e:  # noqa
+            bad = f'history case #{k} (zero {d} yd): {type(e).__name__}: {e}'
+            continue
+        cases += 1
+        slope = abs(math.tan((row.angle >> P.Unit.Radian) - (shot.look_angle >> P.Unit.Radian)))
+        if m > 5e-6 + 0.6 * slope + 1e-4:
+            bad = (f'same calculator, zero {d} yd, then only {["the wind", "a fresh equal Shot with another wind", "humidity and winds", "the atmosphere"][k % 4]} '
+                   f'changed and zeroed again: miss {m} ft (slope {slope})')
+    return result('bounded:zero-history', [mk('zeroing-again-on-a-used-calculator-after-one-change-still-hits', bad is None,
+                  'set_weapon_zero, change one thing, set_weapon_zero, fire: |target_drop| at the zero distance',
+                  cases, t0, bad)], t0, props=('C02', 'C10'))
 
 
 def bounded_zero_inclined(tier, seed):
